@@ -54,6 +54,16 @@ def generate(rng, tier):
         for _ in range(rng.range(1, 3)):
             body += R.path(rng, n=rng.range(1, 12))
         g["random-paths"].append(case(vb, rc, body))
+    # SetRasterizer again with a rectangle of the same size at another origin (an icon grid), with or without a Reset after it
+    g["retarget"] = []
+    for i in range(400 if tier == "quick" else 10000):
+        vb, rc = R.viewbox(rng), R.rect(rng)
+        rc2 = [rc[0] + rng.range(-40, 40), rc[1] + rng.range(1, 60), rc[2], rc[3]] if i % 4 else R.rect(rng)
+        body = ["R"] + vb + ["-"] + R.path(rng, n=rng.range(1, 3)) + ["SR"] + [str(x) for x in rc2]
+        if i % 2:
+            body += ["R"] + vb + ["-"]
+        body += R.path(rng, n=rng.range(1, 4))
+        g["retarget"].append("REN %d %d %d %d " % tuple(rc) + " ".join(body))
     # a second Reset on the same Renderer whose viewBox has the same size but another origin (or the same origin, another size)
     g["second-reset"] = []
     for _ in range(600 if tier == "quick" else 20000):
